@@ -410,6 +410,10 @@ class HarnessBug(Exception):
     pass
 
 
+class Runaway(Exception):
+    """The server handed over more requests than the input has room for."""
+
+
 def serve(segments, mode="sync"):
     """Feed the segments to a fresh connection (a bytes argument is one segment);
     delivery stops once the server has asked the transport to close.
@@ -429,6 +433,8 @@ def serve(segments, mode="sync"):
     errors = []
     marks = []
     pending = []
+    # every request needs a request line and an empty line: >= 16 bytes
+    most = sum(len(x) for x in segments) // 16 + 2
 
     def answer(request, n):
         body = b"ok %d\n" % n
@@ -448,6 +454,8 @@ def serve(segments, mode="sync"):
             except Exception as e:
                 errors.append(e)
                 raise
+            if len(seen) > most:
+                raise Runaway()
             if mode == "sync":
                 answer(self, len(seen))
             else:
@@ -461,6 +469,7 @@ def serve(segments, mode="sync"):
     proto.callLater = clock.callLater
     tr = _make_transport()
     proto.makeConnection(tr)
+    runaway = False
     try:
         for seg in segments:
             if tr.disconnecting:
@@ -471,6 +480,8 @@ def serve(segments, mode="sync"):
                     answer(*pending.pop(0))
         while pending:
             answer(*pending.pop(0))
+    except Runaway:
+        runaway = True
     finally:
         if errors:
             raise HarnessBug(repr(errors[0]))
@@ -485,7 +496,7 @@ def serve(segments, mode="sync"):
     else:
         late_requests = 0
     obs = dict(requests=seen, written=written, closed=tr.disconnecting, got400=got400, n400=n400,
-               after400=after, late_requests=late_requests,
+               after400=after, late_requests=late_requests, runaway=runaway,
                n200=written.count(b"HTTP/1.1 200 OK\r\n") + written.count(b"HTTP/1.0 200 OK\r\n"))
     proto.connectionLost(Failure(ConnectionDone()))
     return obs
@@ -542,6 +553,9 @@ def conforms(steps, obs):
     reqs = obs["requests"]
     i = 0
     choices = []
+    if obs["runaway"]:
+        return ("runaway-processing", "%d requests were handed over, more than the input has room for: the same bytes "
+                "are parsed again and again; first: %r" % (len(reqs), reqs[:3])), choices
     for step in steps:
         kind = step[0]
         if kind == "request":
@@ -681,7 +695,7 @@ def run_case(ctx, case):
     if len(alts) > 1:
         ctx.count("bare-LF stream: conforms as " + ("CRLF-only" if results[0][0] is None else "LF-terminated"))
     # consistency of what was written with what was delivered
-    if obs["n200"] != len(obs["requests"]):
+    if obs["n200"] != len(obs["requests"]) and not obs["runaway"]:
         ctx.violation("responses-vs-requests", case, "delivered %d requests, wrote %d 200 responses: %r"
                       % (len(obs["requests"]), obs["n200"], obs["written"][:300]))
     # h11 on strictly well-formed streams
@@ -750,7 +764,7 @@ def run_case(ctx, case):
             ctx.violation(late + "segmented:%s:%s" % (sig, where), dict(pieces=case["pieces"], cuts=[spec], mode=mode),
                           "stream=%r cuts=%r\n one piece conforms; segmented delivery does not: %s\n observed: %d requests, got400=%r closed=%r"
                           % (data[:500], cuts[:12], detail, len(sobs["requests"]), sobs["got400"], sobs["closed"]))
-        if sobs["n200"] != len(sobs["requests"]):
+        if sobs["n200"] != len(sobs["requests"]) and not sobs["runaway"]:
             ctx.violation("segmented:responses-vs-requests", dict(pieces=case["pieces"], cuts=[spec], mode=mode),
                           "delivered %d requests, wrote %d 200 responses" % (len(sobs["requests"]), sobs["n200"]))
         if classes and classes[0] != "other-cut" and (framing_issue or piped or any(k in ("chunksize", "lastchunk") for k, _ in case["pieces"])):
